@@ -303,6 +303,10 @@ fn gen_misuse(t: &mut Tape) -> Case {
             f.generics.clear();
             f.where_.clear();
             sane_body(&mut f);
+            // the misuse stays a misuse when the fn is conditionally compiled (enabled or not)
+            if t.chance(1, 3) {
+                f.attrs.insert(0, (*t.pick(&["#[cfg(all())]", "#[cfg(any())]", "#[cfg(debug_assertions)]", "#[cfg(not(test))]"])).to_string());
+            }
             let (mut g, _) = gen::gen_fn(t, "bar", "pub".into(), &plain);
             sane_body(&mut g);
             let items = if t.flip() { format!("{}\n{}", g.render(), f.render()) } else { format!("{}\n{}", f.render(), g.render()) };
